@@ -82,6 +82,47 @@ class Accumulator:
         self.total = self.total + amount_to_add
         return self.total
 ''',
+    'typed settings: annotated assignments whose values are literals that occur two or three times': '''
+DEFAULT_HOST: str = 'localhost'
+LOOPBACK_HOST: str = 'localhost'
+DEFAULT_SCHEME: str = 'https'
+FALLBACK_SCHEME: str = 'https'
+SECURE_SCHEME: str = 'https'
+DEFAULT_MODE: bytes = b'rb+'
+OTHER_MODE: bytes = b'rb+'
+RETRY: bool = True
+VERBOSE: bool = True
+STRICT: bool = True
+PARENT: object = None
+OWNER: object = None
+def connect(host: str = 'localhost', scheme: str = 'https') -> str:
+    target: str = 'localhost'
+    chosen: str = 'https'
+    label: str = 'a label used twice'
+    other: str = 'a label used twice'
+    flag: bool = True
+    nothing: object = None
+    return scheme + host + target + chosen + label + other + str(flag) + str(nothing)
+class Endpoint:
+    kind: str = 'https'
+    host: str = 'localhost'
+''',
+    'a short literal used twice in a function whose body starts with a compound statement': '''
+def f(x):
+    for i in x:
+        print('abc', i, 'abc')
+''',
+    'a parameter used twice in a function whose body starts with a compound statement': '''
+def f(value):
+    for i in value:
+        print(value)
+''',
+    'a short literal used twice, each time directly after a keyword': '''
+def f(x):
+    if x:
+        return 'abc'
+    return 'abc'
+''',
     'class attributes, globals, nonlocal': '''
 counter_value = 0
 def bump():
@@ -169,7 +210,7 @@ def run(model, rep, rule='C17.E2E', tier='quick'):
                 elif len(on) < len(off):
                     shorter += 1
             rep.check(not worse, rule, mi.loc(), 'probe `%s`, %s: each of the %d size options on vs off' % (label, cname, len(SIZE_OPTIONS)), 'never longer',
-                      '; '.join(worse[:3]), key='%s|%s|%s' % (rule, label, cname), cells=2 * len(SIZE_OPTIONS))
+                      '; '.join(worse[:3]), key='%s|%s|%s%s' % (rule, label, cname, ''.join('|' + w.split(' ')[0].rstrip(':') for w in worse)), cells=2 * len(SIZE_OPTIONS))
     rep.count('option_runs_that_shortened_the_output', shorter)
     rep.sensitive(shorter >= 30, 'only %d (probe, option) pairs got shorter at all: the size rule has lost its sensitivity' % shorter)
     rep.floor(rule, 10)
